@@ -361,3 +361,107 @@ func btoa(b bool) string {
 	}
 	return "F"
 }
+
+// ---------------------------------------------------------------- muxer inspection (C09)
+
+// VerifTubeInfo is one live tube of a muxer as the C09 driver sees it.
+type VerifTubeInfo struct {
+	Rel      bool
+	ID       byte
+	Type     byte
+	State    int // 0 created, 1 open (initiated or closing), 2 closed
+	Buffered int // reliable: unread bytes; unreliable: queued messages
+}
+
+func verifProjectState(s state) int {
+	switch s {
+	case created:
+		return 0
+	case closed:
+		return 2
+	}
+	return 1
+}
+
+// VerifMuxSnapshot lists the muxer's maps (sorted by id) and the length of the accept queue.
+func VerifMuxSnapshot(m *Muxer) (rel, unrel []VerifTubeInfo, queued int) {
+	m.m.Lock()
+	defer m.m.Unlock()
+	for id := 0; id < 256; id++ {
+		if r, ok := m.reliableTubes[byte(id)]; ok {
+			r.l.Lock()
+			st := verifProjectState(r.tubeState)
+			r.l.Unlock()
+			r.recvWindow.m.Lock()
+			n := r.recvWindow.buffer.Len()
+			r.recvWindow.m.Unlock()
+			rel = append(rel, VerifTubeInfo{true, byte(id), byte(r.tType), st, n})
+		}
+		if u, ok := m.unreliableTubes[byte(id)]; ok {
+			st := verifProjectState(u.state.Load().(state))
+			unrel = append(unrel, VerifTubeInfo{false, byte(id), byte(u.tType), st, len(u.recv.C)})
+		}
+	}
+	return rel, unrel, len(m.tubeQueue)
+}
+
+// VerifMuxHas reports whether the muxer's map holds a tube (rel, id).
+func VerifMuxHas(m *Muxer, rel bool, id byte) bool {
+	_, ok := m.getTube(rel, id)
+	return ok
+}
+
+// VerifMuxTryAccept is Accept when a tube is queued, otherwise (nil, false).
+func VerifMuxTryAccept(m *Muxer) (Tube, bool) {
+	if len(m.tubeQueue) == 0 {
+		return nil, false
+	}
+	t, err := m.Accept()
+	return t, err == nil
+}
+
+// VerifMuxForceClose drives the tube (rel, id) into its closed state without a peer: reliable tubes as
+// Muxer.Stop's forced close does (enterClosedState), with the RTT estimate at its minimum so that the
+// reaper's 4*RTT delay is short; unreliable tubes through their Close.
+func VerifMuxForceClose(m *Muxer, rel bool, id byte) bool {
+	t, ok := m.getTube(rel, id)
+	if !ok {
+		return false
+	}
+	if r, isRel := t.(*Reliable); isRel {
+		r.l.Lock()
+		r.sender.RTT = minRTT
+		r.enterClosedState()
+		r.l.Unlock()
+		return true
+	}
+	t.Close()
+	return true
+}
+
+// VerifMuxRead returns what a reader of tube (rel, id) gets right now without blocking: reliable, all
+// buffered bytes; unreliable, the next queued message.
+func VerifMuxRead(m *Muxer, rel bool, id byte) (data []byte, ok bool) {
+	t, found := m.getTube(rel, id)
+	if !found {
+		return nil, false
+	}
+	if r, isRel := t.(*Reliable); isRel {
+		v := &VerifRecv{r.recvWindow}
+		blocked, d, _ := v.Read(1 << 20)
+		if blocked {
+			return nil, true
+		}
+		return d, true
+	}
+	u := t.(*Unreliable)
+	if len(u.recv.C) == 0 || u.state.Load().(state) == created {
+		return nil, true // ReadMsgUDP would block (nothing queued, or the tube is not initiated yet)
+	}
+	buf := make([]byte, 1<<17)
+	n, _, _, _, _ := u.ReadMsgUDP(buf, nil)
+	return buf[:n], true
+}
+
+// VerifMinRTT is the minimum RTT estimate (the reaper waits 4*RTT before freeing a locally opened reliable id).
+func VerifMinRTT() time.Duration { return minRTT }
